@@ -268,7 +268,11 @@ def sync_strategy_origin(ctx, R):
         for a in body_nodes(f):
             if isinstance(a, ast.Assign) and any(isinstance(t, ast.Name) and t.id == v.id for t in a.targets):
                 val = a.value
-                ok = (isinstance(val, ast.Constant) and val.value is None) or "FileSync" in canon(val) or (isinstance(val, ast.Call) and isinstance(val.func, ast.Name) and val.func.id.startswith("_"))
+                # looked up in FileSync, derived from its own previous value (instantiating the looked-up class), or produced by a helper of the module
+                ok = (isinstance(val, ast.Constant) and val.value is None) or "FileSync" in canon(val) or (isinstance(val, ast.Call) and isinstance(val.func, ast.Name) and val.func.id.startswith("_")) \
+                    or any(x.id == v.id or x.id.startswith(v.id + "_h") for x in ast.walk(val) if isinstance(x, ast.Name)) \
+                    or any(isinstance(x, ast.Name) and x.id != v.id and any(isinstance(b, ast.Assign) and any(isinstance(t, ast.Name) and t.id == x.id for t in b.targets) and "FileSync" in canon(b.value)
+                                                                          for b in body_nodes(f)) for x in ast.walk(val))
                 if isinstance(val, ast.Lambda) or not ok:
                     bad = bad or a
             elif isinstance(a, (ast.FunctionDef, ast.AsyncFunctionDef)) and a.name == v.id:
